@@ -418,8 +418,8 @@ var unit = ev.Unit[Case]{
 }
 
 var tableUnit = ev.Unit[Case]{
-	Name: "single-mutation-table",
-	Rule: "exhaustive table: for each of the six kinds x each of op/path/from/value x {delete, null, 8 retypes, case/prefix renames, 9 duplicates at either end}, plus members foreign to the kind with every type, 11 unknown op strings, 6 non-object elements, 5 non-array roots; each as the only element and after a valid element; same oracle; every case is non-trivial (one mutation away)",
+	Name:  "single-mutation-table",
+	Rule:  "exhaustive table: for each of the six kinds x each of op/path/from/value x {delete, null, 8 retypes, case/prefix renames, 9 duplicates at either end}, plus members foreign to the kind with every type, 11 unknown op strings, 6 non-object elements, 5 non-array roots; each as the only element and after a valid element; same oracle; every case is non-trivial (one mutation away)",
 	Check: check,
 }
 
